@@ -205,6 +205,17 @@ add('void-object', 'decl', 'void s14;')
 add('restrict-non-pointer', 'decl', 'restrict int s15;')
 add('no-type-specifier', 'decl', 'static s16;')
 add('struct-and-int', 'decl', 'struct cs int s17;')
+add('two-tagged-types', 'decl', 'struct cs union cu s38;')
+add('typedef-name-then-struct', 'decl', 'ctd struct cs s39;')
+add('typedef-name-then-int', 'decl', 'ctd int s40;')
+add('enum-then-struct', 'decl', 'enum ce struct cs s41;')
+add('int-then-struct', 'decl', 'int struct cs s42;')
+add('typeof-then-int', 'decl', 'typeof(cobj) int s43;')
+add('struct-then-typeof', 'decl', 'struct cs typeof(cobj) s44;')
+add('unsigned-typedef-name', 'decl', 'unsigned ctd s45b, s45;')
+add('parameter-extern', 'decl', 'void s46(extern int p);')
+add('parameter-typedef', 'decl', 'void s47(typedef int p);')
+add('parameter-thread-local', 'decl', 'void s48(_Thread_local int p);')
 add('function-returning-array', 'decl', 'int s18(void)[2];')
 add('function-returning-function', 'decl', 'int s19(void)(void);')
 add('array-of-functions', 'decl', 'int s20[2](void);')
